@@ -3,6 +3,7 @@ package staking
 import (
 	"encoding/json"
 	"fmt"
+	"sort"
 
 	"0chain.net/chaincore/transaction"
 	"0chain.net/core/config"
@@ -22,13 +23,15 @@ import (
 // Mix is the weight of each staking step kind in the main phase of a plan.
 type Mix struct {
 	Reg, Lock, Unlock, Collect, PayFees, Kill, Shutdown, Settings, Check, Block, Clock, Replay, Junk, Alloc int
+	// KilledGen: tenths of the plans that carry the "killed generator" episode (see genExtra)
+	KilledGen int
 }
 
 var (
 	mixWorkload = Mix{Reg: 2, Lock: 6, Unlock: 4, Collect: 3, PayFees: 5, Kill: 2, Shutdown: 2, Settings: 2, Check: 0, Block: 5, Clock: 2, Replay: 2, Junk: 2, Alloc: 1}
 	mixC11      = Mix{Reg: 2, Lock: 8, Unlock: 7, Collect: 4, PayFees: 4, Kill: 2, Shutdown: 1, Settings: 1, Check: 2, Block: 5, Clock: 3, Replay: 2, Junk: 2, Alloc: 1}
 	mixC10      = Mix{Reg: 2, Lock: 6, Unlock: 2, Collect: 2, PayFees: 7, Kill: 1, Shutdown: 1, Settings: 3, Check: 5, Block: 5, Clock: 1, Replay: 1, Junk: 1}
-	mixC22      = Mix{Reg: 2, Lock: 5, Unlock: 2, Collect: 2, PayFees: 10, Kill: 2, Shutdown: 0, Settings: 4, Check: 0, Block: 6, Clock: 1, Replay: 2, Junk: 1}
+	mixC22      = Mix{Reg: 2, Lock: 5, Unlock: 2, Collect: 2, PayFees: 10, Kill: 2, Shutdown: 0, Settings: 4, Check: 0, Block: 6, Clock: 1, Replay: 2, Junk: 1, KilledGen: 6}
 	mixC23      = Mix{Reg: 2, Lock: 5, Unlock: 3, Collect: 2, PayFees: 4, Kill: 6, Shutdown: 6, Settings: 2, Check: 3, Block: 5, Clock: 1, Replay: 2, Junk: 1, Alloc: 2}
 )
 
@@ -40,8 +43,15 @@ var (
 func genExtra(mix Mix) func(r *sim.RNG, p *sim.Plan, tier string) {
 	return func(r *sim.RNG, p *sim.Plan, tier string) {
 		sw := r.Child("sw")
+		// the "killed generator" episode draws from its own stream, so the rest of the plan of a
+		// seed is what it was without it
+		kg := r.Child("killedgen")
+		kgOn := mix.KilledGen > 0 && kg.Intn(10) < mix.KilledGen
 		p.Cfg["clients"] = int64(sw.Range(8, 14))
 		p.Cfg["miners"] = int64(sw.Range(1, 4))
+		if kgOn {
+			p.Cfg["miners"] = int64(kg.Range(2, 4))
+		}
 		p.Cfg["sharders"] = int64(sw.Range(1, 4))
 		// genesis pays all accounts out of the miner contract's allotment (1.5e18): keep 24 accounts below it
 		p.Cfg["funding"] = []int64{1e13, 1e12, 5e16, 3e10}[sw.Pick([]int{6, 2, 2, 1})]
@@ -68,10 +78,14 @@ func genExtra(mix Mix) func(r *sim.RNG, p *sim.Plan, tier string) {
 		nprov := 0
 		for _, k := range kinds {
 			for i := 0; i < k.n; i++ {
-				if sw.Intn(10) == 0 {
+				if sw.Intn(10) == 0 && !(kgOn && k.kind == 1) {
 					continue // leave some unregistered
 				}
 				steps = append(steps, sim.Step{Op: "st.reg", I: []int64{int64(k.kind), int64(i), int64(sw.Pick([]int{5, 2, 2, 2, 2, 1, 1})), int64(sw.Pick([]int{4, 2, 3, 2, 2, 1, 1, 1})), int64(sw.Intn(16)), int64(sw.Pick([]int{6, 4, 1})), 0}})
+				if kgOn && k.kind == 1 {
+					// every miner registered, with room for delegates (10 or 200)
+					steps[len(steps)-1].I[3] = int64(4 + kg.Intn(2))
+				}
 				nprov++
 			}
 		}
@@ -80,6 +94,9 @@ func genExtra(mix Mix) func(r *sim.RNG, p *sim.Plan, tier string) {
 			for j := 0; j < n; j++ {
 				steps = append(steps, sim.Step{Op: "st.lock", A: sw.Intn(20), I: []int64{0, int64(i), int64(sw.Pick([]int{6, 4, 1, 0, 0, 0, 0, 0, 0, 0, 0, 0, 3, 3})), int64(sw.Pick([]int{6, 4, 1})), 0}})
 			}
+		}
+		if kgOn {
+			steps = append(steps, genKilledGenBootstrap(kg, int(p.Cfg["miners"]))...)
 		}
 		steps = append(steps, sim.Step{Op: "block", I: []int64{0, 1}})
 		if sw.Intn(2) == 0 {
@@ -164,12 +181,86 @@ func genExtra(mix Mix) func(r *sim.RNG, p *sim.Plan, tier string) {
 			pos := sw.Intn(len(main) + 1)
 			main = append(main[:pos], append([]sim.Step{b}, main[pos:]...)...)
 		}
+		if kgOn {
+			main = spread(kg, main, genKilledGenEpisode(kg, int(p.Cfg["miners"])))
+		}
 		steps = append(steps, main...)
 		if mix.Check > 0 {
 			steps = append(steps, sim.Step{Op: "st.check", I: []int64{int64(sw.Uint64() >> 2), int64(sw.Range(6, 12))}})
 		}
 		p.Steps = steps
 	}
+}
+
+// The "killed generator" episode (C22): every miner is registered and staked above the pool
+// minimum, most of them by several delegates of very different sizes (more delegate pools than
+// num_miner_delegates_rewarded when that setting is lowered to 1 or 2); the contract owner kills
+// one miner, later possibly a second one, and after each kill a series of fee blocks is generated
+// by a killed miner (st.feeblock; every round has its own round seed, which is what the contract
+// draws the substitute miner from) and by live ones.
+
+func genKilledGenBootstrap(kg *sim.RNG, miners int) []sim.Step {
+	var out []sim.Step
+	a := kg.Intn(20)
+	for i := 0; i < miners; i++ {
+		// one stake well above the pool minimum (37 ZCN + 7 / 2 ZCN / 1.5 ZCN + 3) ...
+		out = append(out, sim.Step{Op: "st.lock", A: a, I: []int64{1, int64(i), []int64{12, 1, 13}[kg.Intn(3)], int64(kg.Pick([]int{6, 4, 1})), 0}})
+		a++
+		// ... and small ones of other delegates: 1 unit, 1 ZCN, 1.5 ZCN + 3
+		for j, n := 0, kg.Pick([]int{2, 2, 3, 3, 2}); j < n; j++ {
+			out = append(out, sim.Step{Op: "st.lock", A: a, I: []int64{1, int64(i), []int64{11, 11, 0, 13}[kg.Intn(4)], int64(kg.Pick([]int{6, 4, 1})), 0}})
+			a++
+		}
+	}
+	if kg.Intn(3) != 0 {
+		// num_miner_delegates_rewarded = 1 or 2 (the shipped setting is 10)
+		out = append(out, sim.Step{Op: "st.settings", I: []int64{int64(16 + kg.Intn(2)), 0, 0}})
+	}
+	return out
+}
+
+func genKilledGenEpisode(kg *sim.RNG, miners int) []sim.Step {
+	var out []sim.Step
+	feeBlocks := func(n int) {
+		for i := 0; i < n; i++ {
+			// generator: mostly a killed miner, sometimes miner #k whatever its state
+			out = append(out, sim.Step{Op: "st.feeblock", A: kg.Intn(20), I: []int64{int64(kg.Pick([]int{5, 1})), int64(kg.Intn(8)), int64(kg.Intn(4)), int64(kg.Pick([]int{4, 2, 0, 3, 1})), int64(kg.Intn(2))}})
+		}
+	}
+	kill := func() {
+		out = append(out, sim.Step{Op: "st.kill", A: kg.Intn(20), I: []int64{1, int64(kg.Intn(miners)), 0, int64(kg.Pick([]int{6, 4, 1})), 0}})
+	}
+	if kg.Intn(4) == 0 {
+		feeBlocks(2) // nobody killed yet
+	}
+	kill()
+	feeBlocks(kg.Range(4, 8))
+	if miners > 2 && kg.Intn(2) == 0 {
+		kill()
+		feeBlocks(kg.Range(3, 6))
+	}
+	return out
+}
+
+// spread inserts the steps of ep into main at random positions, keeping the order of both.
+func spread(kg *sim.RNG, main, ep []sim.Step) []sim.Step {
+	pos := make([]int, len(ep))
+	for i := range pos {
+		pos[i] = kg.Intn(len(main) + 1)
+	}
+	sort.Ints(pos)
+	out := make([]sim.Step, 0, len(main)+len(ep))
+	j := 0
+	for i := 0; i <= len(main); i++ {
+		for j < len(ep) && pos[j] == i {
+			out = append(out, ep[j])
+			j++
+		}
+		if i < len(main) {
+			out = append(out, main[i])
+		}
+	}
+	return out
 }
 
 // ---- symbolic resolution --------------------------------------------------------------------------
@@ -399,6 +490,7 @@ func (x *Ops) Install(r *ledger.Runner) {
 	r.Ops["st.unlock"] = x.opUnlock
 	r.Ops["st.collect"] = x.opCollect
 	r.Ops["st.payfees"] = x.opPayFees
+	r.Ops["st.feeblock"] = x.opFeeBlock
 	r.Ops["st.kill"] = x.opKill
 	r.Ops["st.shutdown"] = x.opShutdown
 	r.Ops["st.settings"] = x.opSettings
@@ -587,6 +679,52 @@ func (x *Ops) opPayFees(r *ledger.Runner, st sim.Step) {
 		}
 		x.submitRaw(r, from, cl, ledger.AddrMiner, "payFees", raw, 0, 2)
 	}
+}
+
+// st.feeblock: A = first sender, I = [generator kind (0 killed miner #k, else / 1 registered miner #k),
+// k, number of fee-paying transfers, fee kind, save]: a whole block of its own generated by the chosen
+// miner: the block under assembly (if any) is sealed first, then transfers that pay fees, the
+// generator's honest payFees, seal.
+func (x *Ops) opFeeBlock(r *ledger.Runner, st sim.Step) {
+	w := x.W
+	if r.BC != nil {
+		r.EndBlock(false)
+	}
+	var killed, all []*Prov
+	for _, p := range x.M.Provs {
+		if p.Kind == spenum.Miner {
+			all = append(all, p)
+			if p.Dead {
+				killed = append(killed, p)
+			}
+		}
+	}
+	cand := all
+	if st.Int(0, 0) == 0 && len(killed) > 0 {
+		cand = killed
+	}
+	mi := int(st.Int(1, 0)) % len(w.Miners)
+	if len(cand) > 0 {
+		g := cand[int(st.Int(1, 0))%len(cand)]
+		for i, m := range w.Miners {
+			if m.ID == g.ID {
+				mi = i
+			}
+		}
+		if g.Dead {
+			w.Tr.Probe("fee_block_generated_by_killed_miner")
+		}
+	}
+	r.BC = w.NewBlock(nil, mi)
+	for j := 0; j < int(st.Int(2, 0))%4; j++ {
+		from, _ := w.Account(st.A + j)
+		to, _ := w.Account(st.A + j + 1)
+		nonce := r.ResolveNonce(ledger.NExpected, from)
+		r.Submit(w.MakeTxn(ledger.TxnSpec{From: from, To: to, Type: transaction.TxnTypeSend, Value: 1000 + int64(j),
+			Fee: x.fee(r, st.Int(3, 0), from, nonce), Nonce: nonce}))
+	}
+	x.submitRaw(r, r.BC.Miner.ID, r.BC.Miner.Client, ledger.AddrMiner, "payFees", fmt.Sprintf(`{"round":%d}`, r.BC.B.Round), 0, 2)
+	r.EndBlock(st.Int(4, 0) != 0)
 }
 
 func killFn(kind spenum.Provider) (string, string) {
